@@ -24,6 +24,14 @@ CLAIMED = {
    technique="deterministic simulation of object histories: seeded Write/Read/Sum/Clone/Reset sequences under a chunking adversary (short writes/reads at rate and 8192-byte boundaries, lanes 1/2/4) checked op by op against one-shot reference models; Ascon objects reused with dst prefixes, in-place calls and tamper faults",
    text="Long-lived SHA-3/SHAKE/TurboSHAKE states, xof.XOF objects, K12 states (lanes 1, 2, 4; customisation strings), reused expander objects, 2-/4-way Keccak states and reused Ascon ciphers are driven through seeded histories; every output byte range is compared with a plain one-shot reference model of the specification (pinned to published vectors at start-up), clones must agree and be independent, Reset must forget, lanes must not matter; Ascon Seal = model, Open inverts (also in place / after a dst prefix) and any single-bit change of key, nonce, AD, ciphertext or tag, or truncation, returns an error and no plaintext.",
    note="Models trusted after their fixture checks (x/crypto/sha3, RFC 9861 / K12 I-D, RFC 9380, LWC Ascon KATs); internal/sha3 and the K12 lane knob are reached through build-time overlay shims, nothing is committed to /repo."),
+ "C01": dict(engine="netsim", level="exploration", ref="DESIGN.md §3 C01",
+   technique="deterministic simulation: responder/initiator/auditor nodes over a faulty transport (bit flips, edits, fills, misdelivery, length faults), a simulated disk (responder restart from its marshalled key) and an entropy device with short reads; oracles on agreement, purity, tamper safety, implicit rejection and restart equivalence",
+   text="Seeded sessions against every KEM scheme (kem/schemes, the HPKE hybrid and HPKE X-Wing): keys, ciphertexts and secrets are re-derived by an auditor and must be identical; sizes equal the advertised ones; the responder decapsulates with its original key and with a key restarted from disk and must agree; intact ciphertexts give the encapsulated secret; altered ciphertexts never do unless the alteration is confined to a raw X25519/X448 share that decodes to the same u (computed from the TLS drafts' layout with big integers); ML-KEM/Kyber/FrodoKEM return no error and a secret that changes with the ciphertext and with z.",
+   note="Secrets are compared for inequality (2^-128); HPKE hybrid Encapsulate (documented not-implemented) is only driven deterministically."),
+ "C02": dict(engine="netsim", level="exploration", ref="DESIGN.md §3 C02",
+   technique="deterministic simulation: signer (restartable, stored key can be corrupted) -> faulty transport -> verifier, BLS signers with an aggregator, entropy device behind hedged signing; per-field faults plus enumeration of every single-bit flip and truncation length of one signature per scheme",
+   text="For all sign/schemes plus Ed25519ctx/ph, Ed448ph and BLS in both groups: honest signatures verify, have the advertised size and are byte-identical from the original and the restarted signer; then exactly one fault hits (pk, msg, ctx, mode or sig): bit flip, truncation, appended bytes, S+L, zeros, another session's signature, another signer's key, altered/over-long context, another mode (incl. pure/ctx verification of the prehash), a bit flipped in the public half of the signer's stored key, dropped/duplicated/mis-attributed aggregate shares, entropy faults; verification must return false and never panic. Directed part enumerates all single-bit flips and all truncation lengths of one signature per kind.",
+   note="Appended bytes to public keys are no-panic only (documented prefix parsing); sampled, not exhaustive."),
 }
 
 NA = {
